@@ -194,4 +194,20 @@ Children(A, w) ==
 (* Pages of a webentity (C05): pages resolving to w *)
 WePages(A, w) == { p \in A.pages : Resolve(A, p) = w }
 
+(* Webentity network (C07): page links pushed through resolution *)
+AbsNetwork(A, auto) ==
+  LET prs == { <<Resolve(A, e[1]), Resolve(A, e[2])>> : e \in A.links }
+      ok  == { pr \in prs : pr[1] # 0 /\ pr[2] # 0 /\ (auto \/ pr[1] # pr[2]) }
+  IN { <<pr[1], pr[2], SumW({ e \in A.links : Resolve(A, e[1]) = pr[1] /\ Resolve(A, e[2]) = pr[2] })>> : pr \in ok }
+
+(* Per-webentity page links (C08) *)
+AbsWeLinks(A, w, inb, internal, outb) ==
+  { e \in A.links : Resolve(A, e[1]) = w /\ ((internal /\ Resolve(A, e[2]) = w) \/ (outb /\ Resolve(A, e[2]) # w)) }
+  \cup (IF inb THEN { e \in A.links : Resolve(A, e[2]) = w /\ Resolve(A, e[1]) # w } ELSE {})
+AbsCited(A, w)  == { Resolve(A, e[2]) : e \in { x \in A.links : Resolve(A, x[1]) = w } }
+AbsCiting(A, w) == { Resolve(A, e[1]) : e \in { x \in A.links : Resolve(A, x[2]) = w } }
+
+(* Most linked pages (C20): distinct inbound sources, self included *)
+InDegree(A, p) == Cardinality({ e \in A.links : e[2] = p })
+
 =============================================================================
